@@ -3,4 +3,11 @@
 //@@ include algspec.rs
 //@@ include algutils.rs
 //@@ include myers.rs
+//@@ include lcs.rs
+//@@ props ^DiffHook : C08
+//@@ props ^NoFinishHook : C08
+//@@ props ^is_empty_range$|^common_prefix_len$|^common_suffix_len$ : C01
+//@@ props ^deadline_exceeded$ : C07
+//@@ props ^myers:: : C01 C07 C08
+//@@ props ^lcs:: : C01 C07 C08
 fn main() {}
